@@ -471,6 +471,13 @@ class World:
             tt = t.t if isinstance(t, Opt) else t
             if isinstance(tt, Seq) and isinstance(v, (VList, VTuple)):
                 out[nm] = ex.list_to_seq(VList(list(v.items), isinstance(v, VList)), tt.t)
+            if isinstance(tt, SetT) and isinstance(v, (VList, VTuple)):
+                v = ex.list_to_seq(VList(list(v.items), isinstance(v, VList)), tt.t)
+            if isinstance(tt, SetT) and isinstance(v, VSeq):
+                # a contract stated for an iterable read only through membership / any / all: the set of the sequence's elements
+                x, i = z3.Const("x!s2s", flat_sorts(tt.t)[0]), z3.Int("i!s2s")
+                out[nm] = VSet(tt.t, z3.Lambda([x], z3.Exists([i], z3.And(i >= 0, i < v.length, z3.Select(v.arrs[0], i) == x))))
+                ex.assumptions_used.add(f"{c.qual}: a sequence argument for `{nm}` is read only through membership tests (contract stated over the set of its elements)")
         return out
 
     def apply_contract(self, ex, c: Contract, args, kwargs, fn=None) -> V:
